@@ -260,8 +260,11 @@ fn strict_iter(strict: &mut Option<Trace>, run: &mut Run, run_id: usize, s: &Sna
     let proj = run.project(s);
     let Some(t) = strict.as_mut() else { return };
     let (ran, bare, missed) = run.sim.last_iter.clone();
-    let emit_env = |t: &mut Trace, a: &Value, in_iter: bool| match strict_env(&a["step"]) {
+    let emit_env = |t: &mut Trace, a: &Value, in_iter: bool, skipped: bool| match strict_env(&a["step"]) {
         Some(mut e) => {
+            if skipped {
+                e = json!({"do": "Noop"}); // the engine found the action not applicable (nothing happened)
+            }
             e["ev"] = json!("env");
             e["run"] = json!(run_id);
             e["in_iter"] = json!(in_iter);
@@ -274,17 +277,45 @@ fn strict_iter(strict: &mut Option<Trace>, run: &mut Run, run_id: usize, s: &Sna
         if bare {
             t.emit(&json!({"ev": "env", "run": run_id, "do": "BareWake", "in_iter": false, "has_st": false}));
         }
-        for (kind, arg) in s.points.iter() {
+        for (pi, (kind, arg)) in s.points.iter().enumerate() {
+            if kind == "skipped" {
+                continue;
+            }
             if kind == "fired" {
-                emit_env(t, &anchored[*arg], true);
+                let skipped = s.points.get(pi + 1).map(|(k, a)| k == "skipped" && a == arg).unwrap_or(false);
+                emit_env(t, &anchored[*arg], true, skipped);
             } else {
                 t.emit(&json!({"ev": "pt", "run": run_id, "kind": kind, "arg": arg}));
             }
         }
-        t.emit(&json!({"ev": "iterend", "run": run_id, "st": proj}));
+        // anchored actions whose yield point was not reached were applied right after the iteration, before the
+        // state was measured: the measurement belongs to the last of them
+        if missed.is_empty() {
+            t.emit(&json!({"ev": "iterend", "run": run_id, "has_st": true, "st": proj}));
+        } else {
+            t.emit(&json!({"ev": "iterend", "run": run_id, "has_st": false}));
+        }
     }
-    for i in missed {
-        emit_env(t, &anchored[i], false);
+    let nm = missed.len();
+    for (k, (i, skipped)) in missed.into_iter().enumerate() {
+        if ran && k + 1 == nm {
+            match strict_env(&anchored[i]["step"]) {
+                Some(mut e) => {
+                    if skipped {
+                        e = json!({"do": "Noop"});
+                    }
+                    e["ev"] = json!("env");
+                    e["run"] = json!(run_id);
+                    e["in_iter"] = json!(false);
+                    e["has_st"] = json!(true);
+                    e["st"] = proj.clone();
+                    t.emit(&e);
+                }
+                None => t.emit(&json!({"ev": "unsupported", "run": run_id, "do": gets(&anchored[i]["step"], "do")})),
+            }
+        } else {
+            emit_env(t, &anchored[i], false, skipped);
+        }
     }
     // the state after the late actions (and after a blocked iteration) is not measured separately: the next
     // event that carries a state is compared
@@ -457,6 +488,9 @@ fn run_schedule(run_id: usize, sch: &Value, dir: &str, trace: &mut Trace, strict
             if let Some(t) = strict.as_mut() {
                 match strict_env(st) {
                     Some(mut e) => {
+                        if s.skipped.len() > prev.skipped.len() {
+                            e = json!({"do": "Noop"}); // not applicable: the engine did nothing
+                        }
                         e["ev"] = json!("env");
                         e["run"] = json!(run_id);
                         e["in_iter"] = json!(false);
